@@ -83,6 +83,10 @@ CHECKS = {
             'Acceptor logon completes iff TargetCompID matches (when enforced) and the sender is listed (when a list exists); reply echoes HeartBtInt; reset flag resets both numbers; initiator accepts only mirrored CompIDs '
             'when enforcing; != is the negation of ==.',
             '3-letter CompID alphabet; "mismatch" = the initiator does not reach the established state.', '3 C23'),
+    'C24': ('sched_mon', 'exploration', 'runtime monitor on a virtual clock: Schedule::test stepped every 20-60 s over three weeks vs independently computed window membership; decode_dow vs a reference decoder over all strings up to 3 characters',
+            'Hundreds of schedules per run (daily, weekly, weekly wrapping the week end, weekly on a single weekday incl. the configuration default), built directly and from XML, utc offsets -720..+840, both initial '
+            'states, ~45 000 check instants each; decode_dow exhaustively over a 100-byte alphabet (about one million strings).',
+            'clock_gettime(CLOCK_REALTIME) interposed in the harness; what follows the unique day prefix is not examined.', '3 C24'),
     'C26': ('persist_model', 'exploration', 'model-based history checking: every API return of MemoryPersister/FilePersister vs a std::map + control-pair model, under ASan+UBSan',
             'Thousands of random histories (up to 120 operations, small key spaces so that collisions, refusals and empty ranges are frequent, reopen for the file store) '
             'are compared call by call with the model derived from the property text; range retrieval is observed through the retransmission callback.',
@@ -139,12 +143,13 @@ def main():
             'add_only': True,
         },
         'engines': [
-            {'name': 'prim_exec', 'path': 'harness/prim_exec.cpp', 'serves_properties': ['C07', 'C08', 'C09', 'C10', 'C12', 'C24'],
+            {'name': 'prim_exec', 'path': 'harness/prim_exec.cpp', 'serves_properties': ['C07', 'C08', 'C09', 'C10', 'C12'],
              'kind_free_text': 'micro-monitors: real primitive + oracle from the property text, ASan/UBSan build'},
             {'name': 'codec_exec', 'path': 'harness/codec_exec.cpp', 'serves_properties': ['C01', 'C02', 'C03', 'C04', 'C05', 'C06', 'C11'],
              'kind_free_text': 'generic reflection-driven codec executor; generator and oracles in pylib/fixgen.py, pylib/fixwire.py, checks/codec.py'},
             {'name': 'session_sim', 'path': 'harness/session_sim.cpp', 'serves_properties': ['C16', 'C17', 'C18', 'C19', 'C20', 'C22', 'C23'],
              'kind_free_text': 'one real Session on a real connection (pm_coro, loopback TCP, virtual clock, timer thread stopped) driven interactively; python FIX session models in checks/session.py'},
+            {'name': 'sched_mon', 'path': 'harness/sched_mon.cpp', 'serves_properties': ['C24'], 'kind_free_text': 'Schedule::test on a virtual clock vs window membership; decode_dow vs reference decoder'},
             {'name': 'persist_model', 'path': 'harness/persist_model.cpp', 'serves_properties': ['C26'], 'kind_free_text': 'random API histories vs map model'},
             {'name': 'persist_crash', 'path': 'harness/persist_crash.cpp', 'serves_properties': ['C27'], 'kind_free_text': 'fork + write/lseek countdown crash injection, reopen oracle'},
             {'name': 'logger_stress', 'path': 'harness/logger_stress.cpp', 'serves_properties': ['C28'], 'kind_free_text': 'producer threads + offline exactly-once/order checker'},
